@@ -142,6 +142,20 @@ def part_pairs(ctx, shard):
             vu = attempt(lambda: v * u)
             ud = attempt(lambda: u / v)
             ctx.decided(("pair", n1, n2))
+            # == / != are decided by scale, offset and dimension only (and by nothing looser)
+            if u.registry is v.registry:
+                (s1, d1, o1), (s2, d2, o2) = triple(u), triple(v)
+                same = d1 == d2 and rel(s1, s2) <= 1e-12 and rel(o1, o2) <= 1e-12
+                differ = d1 != d2 or rel(s1, s2) > 1e-6 or rel(o1, o2) > 1e-6
+                eq, ne = attempt(lambda: bool(u == v)), attempt(lambda: bool(u != v))
+                if eq[0] != "ok" or ne[0] != "ok":
+                    ctx.violation(f"C05|law=equality|{cls}|mode=escaped-exception", case, None, (eq, ne))
+                elif same and (not eq[1] or ne[1]):
+                    ctx.violation(f"C05|law=equality|{cls}|mode=equal-units-compare-unequal", case, True, (eq[1], ne[1]))
+                elif differ and (eq[1] or not ne[1]):
+                    ctx.violation(f"C05|law=equality|{cls}|mode=different-units-compare-equal", case, (triple(u), triple(v)), (eq[1], ne[1]))
+                elif eq[1] == ne[1]:
+                    ctx.violation(f"C05|law=equality|{cls}|mode=eq-and-ne-agree", case, None, (eq[1], ne[1]))
             if (uv[0] == "ok") != (vu[0] == "ok"):
                 ctx.violation(f"C05|law=commutativity|{cls}|mode=asymmetric-refusal", case, uv[:1], vu[:1])
             if uv[0] == "error" or ud[0] == "error":
